@@ -489,7 +489,7 @@ func strEqTerms(w *World, a, b *Term) *Term {
 func strEqLit(a *Term, lit string) *Term {
 	cs := []*Term{Eq(StrLen(a), IntLit(int64(len(lit))))}
 	for k := 0; k < len(lit); k++ {
-		cs = append(cs, Eq(App("bytes", BV(8), StrArr(a), Add(StrOff(a), IntLit(int64(k)))), BVLitU(uint64(lit[k]), 8)))
+		cs = append(cs, Eq(App("bytes", BV(8), StrArr(a), Idx(StrOff(a), IntLit(int64(k)))), BVLitU(uint64(lit[k]), 8)))
 	}
 	return And(cs...)
 }
@@ -608,7 +608,7 @@ func (env *Env) index(base, idx TV) TV {
 			if i.T.Sort != SInt {
 				cfail("string index must be int")
 			}
-			return TV{T: App("bytes", BV(8), StrArr(base.T), Add(StrOff(base.T), i.T)), Ty: types.Typ[types.Uint8]}
+			return TV{T: App("bytes", BV(8), StrArr(base.T), Idx(StrOff(base.T), i.T)), Ty: types.Typ[types.Uint8]}
 		}
 	case *types.Slice:
 		i := env.toSort(idx, types.Typ[types.Int])
@@ -616,7 +616,7 @@ func (env *Env) index(base, idx TV) TV {
 			cfail("slice index must be int")
 		}
 		key := w.elemHeap(u.Elem())
-		return TV{T: Select(Select(env.curHeap(key), SlArr(base.T)), Add(SlOff(base.T), i.T)), Ty: u.Elem()}
+		return TV{T: Select(Select(env.curHeap(key), SlArr(base.T)), Idx(SlOff(base.T), i.T)), Ty: u.Elem()}
 	case *types.Map:
 		mv, _ := w.mapHeaps(u)
 		k := env.toSort(idx, u.Key())
@@ -782,24 +782,32 @@ func (env *Env) call(x ECall) TV {
 			cfail("%s on %s", x.Fn, v.T.Sort)
 		}
 		return TV{T: App(x.Fn, SInt, v.T), Ty: intT}
-	case "fresh":
+	case "fresh", "alive":
+		// fresh(x): allocated after function entry; alive(x): allocated at entry
 		v := env.comp(x.Args[0])
+		if v.T == nil {
+			cfail("%s of constant", x.Fn)
+		}
+		oldH := env.old
+		if oldH == nil {
+			oldH = env.heap
+		}
+		var al *Term
 		switch v.T.Sort {
 		case SInt:
-			return TV{T: And(Not(Eq(v.T, IntLit(0))), Not(App("alive0", SBool, v.T))), Ty: boolT}
+			al = Select(oldH(alKey), v.T)
+			if x.Fn == "fresh" {
+				return TV{T: And(Not(Eq(v.T, IntLit(0))), Not(al)), Ty: boolT}
+			}
 		case SSlice:
-			return TV{T: Not(App("aliveA0", SBool, SlArr(v.T))), Ty: boolT}
+			al = Select(oldH(alAKey), SlArr(v.T))
+			if x.Fn == "fresh" {
+				return TV{T: And(Not(Eq(SlArr(v.T), IntLit(0))), Not(al)), Ty: boolT}
+			}
+		default:
+			cfail("%s on sort %s", x.Fn, v.T.Sort)
 		}
-		cfail("fresh on sort %s", v.T.Sort)
-	case "alive":
-		v := env.comp(x.Args[0])
-		switch v.T.Sort {
-		case SInt:
-			return TV{T: App("alive0", SBool, v.T), Ty: boolT}
-		case SSlice:
-			return TV{T: App("aliveA0", SBool, SlArr(v.T)), Ty: boolT}
-		}
-		cfail("alive on sort %s", v.T.Sort)
+		return TV{T: al, Ty: boolT}
 	case "arr":
 		v := env.comp(x.Args[0])
 		switch v.T.Sort {
@@ -818,6 +826,17 @@ func (env *Env) call(x ECall) TV {
 			return TV{T: StrOff(v.T), Ty: intT}
 		}
 		cfail("off on sort %s", v.T.Sort)
+	case "box":
+		// box(x): the interface value holding x (static type of x is the dynamic type)
+		v := env.comp(x.Args[0])
+		if v.T == nil {
+			cfail("box of constant/compound")
+		}
+		if _, isPtr := types.Unalias(v.Ty).Underlying().(*types.Pointer); !isPtr {
+			cfail("box is only supported for pointers")
+		}
+		return TV{T: Ite(Eq(v.T, IntLit(0)), MkIface(IntLit(int64(w.tagOf(v.Ty))), IntLit(0)), MkIface(IntLit(int64(w.tagOf(v.Ty))), v.T)),
+			Ty: types.NewInterfaceType(nil, nil)}
 	case "typeis":
 		// typeis(iface, "T") : dynamic type test
 		v := env.comp(x.Args[0])
@@ -1042,6 +1061,17 @@ func (w *World) specDecls(used map[string]bool, reveal map[string]bool) (decls [
 					unfold[sig.name] = sig
 				}
 			}
+		case (hasQuant(sig.body) || sig.sf.Trigger) && len(bs) > 0:
+			// bodies with quantifiers become triggered definitional axioms so
+			// that they are only unfolded for terms that actually occur
+			decls = append(decls, fmt.Sprintf("(declare-fun %s (%s) %s)", sig.name, strings.Join(ss, " "), rs))
+			var as []*Term
+			for _, b := range bs {
+				as = append(as, Sym(b.Name, b.Sort))
+			}
+			app := App(sig.name, rs, as...)
+			ax := Forall(bs, Eq(app, sig.body), []*Term{app})
+			decls = append(decls, "(assert "+ax.String()+")")
 		default:
 			decls = append(decls, fmt.Sprintf("(define-fun %s (%s) %s %s)", sig.name, strings.Join(ps, " "), rs, sig.body))
 		}
@@ -1053,4 +1083,14 @@ func (w *World) specDecls(used map[string]bool, reveal map[string]bool) (decls [
 		}
 	}
 	return decls, unfold, nil
+}
+
+func hasQuant(t *Term) bool {
+	found := false
+	Walk(t, map[*Term]bool{}, func(x *Term) {
+		if x.Op == "forall" || x.Op == "exists" {
+			found = true
+		}
+	})
+	return found
 }
